@@ -131,6 +131,7 @@ class State:
         self.dead = False
         self._hs = set()
         self._hs_len = 0
+        self.entry_defs = False
         self.elem_atoms = {}  # ring atom -> None
         self.pending = {}     # ring atom havocked by the call being applied -> cell key
         self.call_mark = 0
@@ -175,6 +176,8 @@ class State:
         eqs = []
         for g in conjuncts(f):
             if isinstance(g, tuple) and g and g[0] == "req" and self.pending and self.define_ring(g[1]):
+                continue
+            if isinstance(g, tuple) and g and g[0] == "req" and self.entry_defs and self.define_entry(g[1]):
                 continue
             # not (a < b)  ==  b <= a   (integer comparisons)
             if isinstance(g, tuple) and g[0] == "not" and isinstance(g[1], tuple) and g[1][0] in ("<", "<=") and isinstance(g[1][1], Poly) and isinstance(g[1][2], Poly):
@@ -254,6 +257,35 @@ class State:
                         return m[0]
         return None
 
+    def define_entry(self, p):
+        """at function entry: `x = E` for an input element x that nothing mentions yet simply fixes that input"""
+        from .ring import RVal, RPoly
+        for key, val in list(self.mem.items()):
+            if not isinstance(val, RVal) or len(val.poly.t) != 1:
+                continue
+            (mono, c0), = val.poly.t.items()
+            if c0 != 1 or len(mono) != 1 or mono[0][1] != 1:
+                continue
+            a = mono[0][0]
+            m = ((a, 1),)
+            c = p.t.get(m)
+            if c not in (1, -1):
+                continue
+            rest = RPoly({k: v for k, v in p.t.items() if k != m})
+            if a in rest.atoms():
+                continue
+            if any(a in ring_atoms_of(h) for h in self.hyps):
+                continue
+            # the atom must not occur in any other cell either
+            if any(isinstance(v2, RVal) and k2 != key and a in v2.poly.atoms() for k2, v2 in self.mem.items()):
+                continue
+            nv = RVal(-rest if c == 1 else rest, val.inv, val.raw)
+            self.mem[key] = nv
+            if self.run.old_mem is not None and self.run.old_mem.get(key) is val:
+                self.run.old_mem[key] = nv
+            return True
+        return False
+
     def truth(self, f):
         """True / False if the formula (or its negation) is literally among the path's hypotheses, else None"""
         if f is True or f is False:
@@ -298,6 +330,35 @@ class State:
                 continue
             self.mem[key] = RVal(val, old.inv, old.raw)
             del self.pending[a]
+            return True
+        return False
+
+    def define_entry(self, p):
+        """at function entry: `x = E` for an input element x that nothing mentions yet simply fixes that input"""
+        from .ring import RVal, RPoly
+        for key, val in list(self.mem.items()):
+            if not isinstance(val, RVal) or len(val.poly.t) != 1:
+                continue
+            (mono, c0), = val.poly.t.items()
+            if c0 != 1 or len(mono) != 1 or mono[0][1] != 1:
+                continue
+            a = mono[0][0]
+            m = ((a, 1),)
+            c = p.t.get(m)
+            if c not in (1, -1):
+                continue
+            rest = RPoly({k: v for k, v in p.t.items() if k != m})
+            if a in rest.atoms():
+                continue
+            if any(a in ring_atoms_of(h) for h in self.hyps):
+                continue
+            # the atom must not occur in any other cell either
+            if any(isinstance(v2, RVal) and k2 != key and a in v2.poly.atoms() for k2, v2 in self.mem.items()):
+                continue
+            nv = RVal(-rest if c == 1 else rest, val.inv, val.raw)
+            self.mem[key] = nv
+            if self.run.old_mem is not None and self.run.old_mem.get(key) is val:
+                self.run.old_mem[key] = nv
             return True
         return False
 
@@ -791,6 +852,13 @@ class FuncRun:
                 v = self.fresh_value(st, t, nm)
             self.param_vals[p["name"]] = v
             st.regs[p["name"]] = v
+        # ghost field elements (universally quantified values of a contract): fresh opaque elements
+        for kind, txt in self.c.other:
+            if kind == "ghost":
+                for gn in [x.strip() for x in txt.split(",") if x.strip()]:
+                    o = self.new_obj(ELEMENT, gn, "param")
+                    self.init_obj_fresh(st, o, gn)
+                    self.param_vals["ghost:" + gn] = Ptr(o)
         # globals
         self.V.setup_globals(self, st)
         self.pre_objs = set(self.objs)
@@ -856,8 +924,10 @@ class FuncRun:
         for s0 in entry_states:
             ev = Evaluator(self, s0, self.old_mem, self.contract_env(s0), phase="pre", assume=True)
             ev.pkg = self.f.get("pkg", "")
+            s0.entry_defs = self.mode == "ring" and "entrydefs" in self.c.opts
             for lab, ast, txt in self.c.requires:
                 s0.assume(ev.bool(ast))
+            s0.entry_defs = False
             for lab, ast, txt in self.c.lemmas:
                 g = ev.bool(ast)
                 if first:
@@ -924,6 +994,9 @@ class FuncRun:
             v = wrap_typed(self.prog, pv, p["type"])
             env[nm] = v
             env[p["name"]] = v
+        for k_, v_ in self.param_vals.items():
+            if k_.startswith("ghost:"):
+                env[k_[6:]] = v_
         return env
 
     def exec_path(self, st, work):
